@@ -24,15 +24,10 @@ for d in sorted(glob.glob('/verif/seeded/%s-*/' % prop)):
     prev.append('  - %s: %s (%s)' % (name, first[:150], files))
 if not os.path.isdir(wt):
     subprocess.run(['git', '-C', '/repo', 'worktree', 'add', '--detach', wt, 'HEAD'], check=True, capture_output=True)
-tmpl = open('/tmp/agent9_C16.txt').read()
-head, rest = tmpl.split('The behavioural property of interest:\n-----\n', 1)
-_, tail = rest.split('\n-----\n\nYOUR TASK', 1)
-tail = '\n-----\n\nYOUR TASK' + tail
-a = tail.index('PREVIOUS ROUNDS already produced')
-b = tail.index('Earlier rounds have used up the obvious places')
-tail = tail[:a] + 'PREVIOUS ROUNDS already produced the following changes for this property; do NOT repeat them or close variants of them -- pick different functions, different files, and a different kind of slip:\n' + '\n'.join(prev) + '\n' + tail[b:]
+tmpl = open('/verif/tools/seed_prompt_template.txt').read()
 body = '%s  %s\n\nSTATEMENT: %s\n\nQUANTIFIED OVER: %s\n\nWHY THE EXISTING TESTS CANNOT SETTLE IT: %s\n' % (P['id'], P['title'], P['statement'], P['quantifier']['text'], P['why_tests_cant'])
-text = (head + 'The behavioural property of interest:\n-----\n' + body + tail).replace('/tmp/seed9_C16', wt)
+previous = ('PREVIOUS ROUNDS already produced the following changes for this property; do NOT repeat them or close variants of them -- pick different functions, different files, and a different kind of slip:\n' + '\n'.join(prev)) if prev else ''
+text = tmpl.replace('@WT@', wt).replace('@PROPERTY@', body).replace('@PREVIOUS@', previous)
 out = '/tmp/agent%s_%s.txt' % (rnd, prop)
 open(out, 'w').write(text)
 print(out)
